@@ -5,6 +5,8 @@ import Gws.Props.TransWindow
 import Gws.Props.TransNego
 import Gws.Props.TransWriter
 import Gws.Props.TransLimited
+import Gws.Props.TransEmit
+import Gws.Props.TransFragment
 import Gws.Props.C05
 import Gws.Props.C01
 import Gws.Props.TransStep
@@ -114,6 +116,47 @@ theorem header_fields (b0 b1 : UInt8) (rest : List UInt8) :
   · unfold Trans.frameHeader_GetMask; rw [h1]; clear h0 h1; revert b1; apply u8_forall; decide +kernel
   · unfold Trans.frameHeader_GetLengthCode; rw [h1]; clear h0 h1; revert b1; apply u8_forall; decide +kernel
 
+/-- a fragmented control frame, or one whose length code is above 125, is failed with 1002 -/
+theorem control_frame_violation_1002 (fh : List UInt8)
+    (hv : Trans.frameHeader_GetFIN fh = false ∨ Trans.frameHeader_GetLengthCode fh > 125) :
+    Trans.Conn_readControl_guards fh = .error (some (.status 1002)) := by
+  unfold Trans.Conn_readControl_guards
+  rcases hv with h | h
+  · simp [h]
+  · cases hf : Trans.frameHeader_GetFIN fh <;> simp [h]
+
+/-- the fragmentation rules, of the translated state machine itself: a new data frame inside an unfinished message, and a
+continuation with no message in progress, are failed with 1002 (whatever `emitMessage` would do: it is never reached) -/
+theorem fragmentation_violation_1002 {R : Type} (ret : Option GoErr → R) (emit : UInt8 → Bytes → Bool → R)
+    (ini comp : Bool) (cop : UInt8) (cbuf : Bytes) (readMax : Int) (opcode : UInt8) (fin : Bool) (p buf : Bytes) (compressed : Bool)
+    (hv : (opcode ≠ 0 ∧ ini = true) ∨ (opcode = 0 ∧ ini = false)) :
+    ∃ b c i o, Trans.Conn_readMessage_afterPayload ret emit (c_continuationFrame_initialized := ini) (c_continuationFrame_compressed := comp)
+        (c_continuationFrame_opcode := cop) (c_continuationFrame_buffer := cbuf) (c_config_ReadMaxPayloadSize := readMax)
+        (opcode := opcode) (fin := fin) (p := p) (buf := buf) (compressed := compressed)
+      = .error (b, c, i, o, ret (some (.status 1002))) := by
+  unfold Trans.Conn_readMessage_afterPayload
+  rcases hv with ⟨h1, h2⟩ | ⟨h1, h2⟩
+  · have : (opcode != (0 : UInt8)) = true := by simpa using h1
+    refine ⟨cbuf, comp, true, cop, ?_⟩; simp [this, h2]
+  · subst h1; subst h2
+    cases fin <;> (refine ⟨cbuf, comp, false, cop, ?_⟩; simp)
+
+/-- C13: a fragment that takes the reassembled size above the limit is failed with 1009, at that fragment -/
+theorem oversize_fragments_1009 {R : Type} (ret : Option GoErr → R) (emit : UInt8 → Bytes → Bool → R)
+    (comp : Bool) (cop : UInt8) (cbuf : Bytes) (readMax : Int) (fin : Bool) (p buf : Bytes) (compressed : Bool)
+    (hv : ((cbuf.length + p.length : Nat) : Int) > readMax) :
+    ∃ b c i o, Trans.Conn_readMessage_afterPayload ret emit (c_continuationFrame_initialized := true) (c_continuationFrame_compressed := comp)
+        (c_continuationFrame_opcode := cop) (c_continuationFrame_buffer := cbuf) (c_config_ReadMaxPayloadSize := readMax)
+        (opcode := 0) (fin := fin) (p := p) (buf := buf) (compressed := compressed)
+      = .error (b, c, i, o, ret (some (.status 1009))) := by
+  unfold Trans.Conn_readMessage_afterPayload
+  have : decide ((Int.ofNat (cbuf ++ p).length) > readMax) = true := by
+    simp only [List.length_append, decide_eq_true_eq]; exact hv
+  have hv' : ¬ ((cbuf.length : Int) + (p.length : Int) ≤ readMax) := by
+    have : ((cbuf.length + p.length : Nat) : Int) = (cbuf.length : Int) + (p.length : Int) := by omega
+    omega
+  cases fin <;> (refine ⟨cbuf ++ p, comp, true, cop, ?_⟩; simp [hv'])
+
 /-! ## C16: the gate is RFC 3629 validity of the whole payload, for text and close reasons only -/
 
 theorem gate_text (p : Bytes) : Trans.internal_CheckEncoding true 1 p = Spec.Utf8.valid p := by
@@ -122,6 +165,22 @@ theorem gate_binary_never (enabled : Bool) (p : Bytes) : Trans.internal_CheckEnc
   simp [Trans.internal_CheckEncoding]
 theorem gate_off_never (opcode : UInt8) (p : Bytes) : Trans.internal_CheckEncoding false opcode p = true := by
   simp [Trans.internal_CheckEncoding]
+
+/-- an inflated (or plain) text message that is not valid UTF-8 is failed with 1007 and not dispatched, an inflation
+failure with 1011 -/
+theorem invalid_text_1007 {R : Type} (ret : Option GoErr → R) (go seq : Bool → UInt8 → Bytes → R)
+    (data dict : Bytes) (en par : Bool) (size : Int) (hbad : Spec.Utf8.valid data = false) :
+    (Trans.Conn_emitMessage ret go seq (msg_compressed := false) (msg_Data := data) (c_dpsWindow_enabled := en) (c_dpsWindow_dict := dict)
+        (c_dpsWindow_size := size) (c_config_CheckUtf8Enabled := true) (msg_Opcode := 1) (c_config_ParallelEnabled := par)
+        (inflated := ([], none))).2.2 = ret (some (.coded 1007)) := by
+  simp [Trans.Conn_emitMessage, Trans.internal_CheckEncoding, Trans.Message_Bytes, goUtf8Valid, hbad]
+
+theorem inflate_failure_1011 {R : Type} (ret : Option GoErr → R) (go seq : Bool → UInt8 → Bytes → R)
+    (data dict out : Bytes) (en par utf8 : Bool) (size : Int) (op : UInt8) (e : GoErr) :
+    (Trans.Conn_emitMessage ret go seq (msg_compressed := true) (msg_Data := data) (c_dpsWindow_enabled := en) (c_dpsWindow_dict := dict)
+        (c_dpsWindow_size := size) (c_config_CheckUtf8Enabled := utf8) (msg_Opcode := op) (c_config_ParallelEnabled := par)
+        (inflated := (out, some e))).2.2 = ret (some (.coded 1011)) := by
+  simp [Trans.Conn_emitMessage]
 
 /-! ## C12: after initialisation the window bits of an enabled configuration lie in 8..15 -/
 
